@@ -1238,6 +1238,13 @@ func (r *Raft) appendConfigurationEntry(future *configurationChangeFuture) {
 	}
 
 	r.dispatchLogs([]*logFuture{&future.logFuture})
+	// dispatchLogs fails the future and steps down when the entry cannot be
+	// written to the log store. The new configuration must then not take
+	// effect: it would be installed at an index the log does not hold and fed
+	// to quorum tracking while this server carries on as a follower.
+	if r.getState() != Leader {
+		return
+	}
 	index := future.Index()
 	r.setLatestConfiguration(configuration, index)
 	r.leaderState.commitment.setConfiguration(configuration)
